@@ -76,4 +76,5 @@ def generate(rng, tier):
             if not r.acc:
                 r.acc = list(r.srv)
     n = 1500 if tier == 'thorough' else 80
-    return pipeline.guided_cases(rng, n, retry_history, 'retry', cfgmod=mod)
+    import focus
+    return pipeline.guided_cases(rng, n, retry_history, 'retry', cfgmod=mod) + focus.dynext_cases(rng, 200 if tier == 'thorough' else 16)
